@@ -83,6 +83,24 @@ ExportUndef ==
        ELSE Emit(ToJson([rec EXCEPT !.expect = [ok |-> rec.expect.ok, err |-> rec.expect.err, out |-> rec.expect.out,
                                                   touched |-> (tch.err = "UndefinedError")]]) \o "\n")
 
+\* C11: the names a render looks up in the global namespace, read off the reference semantics:
+\* a render that touches no undefined with data d, and does once g alone is taken away, looked g up
+NamesOf(d) == UNION {{d[l][i][1] : i \in DOMAIN d[l]} : l \in DOMAIN d}
+DataWithout(d, g) == [l \in DOMAIN d |-> SelectSeq(d[l], LAMBDA p : p[1] # g)]
+TouchRun(d, c) == Expect(d, [c EXCEPT !.undef = "touch"])
+LookedUp(d, c) == IF ~TouchRun(d, c).ok THEN {} ELSE {g \in NamesOf(d) : TouchRun(DataWithout(d, g), c).err = "UndefinedError"}
+ExportGlobals ==
+  prog # <<>> =>
+    \A i \in DOMAIN Combos :
+       LET d == Combos[i][1]
+           c == Combos[i][2]
+           g == LookedUp(d, c) IN
+       IF g = {} THEN TRUE
+       ELSE Emit(ToJson([focus |-> Focus, main |-> "main",
+               templates |-> <<<<"main", Src(prog)>>>> \o [j \in DOMAIN Partials |-> <<Partials[j][1], Src(Partials[j][2])>>],
+               data |-> d, cfg |-> c, expect |-> [ok |-> TRUE, err |-> "", out |-> ""],
+               looked_up |-> SetAsSeq(g)]) \o "\n")
+
 \* C16 on the reference: a render that touches no undefined is the same under
 \* every policy
 PolicyIrrelevantWithoutTouch ==
